@@ -14,7 +14,8 @@ from koala.graph_utils import make_dual, vertices_to_polygon, remove_trailing_ed
 
 DRIVERS = ("c13",)
 MODEL_TARGETS = ["Model/Lattice.vo", "Model/Dual.vo", "Model/Truncate.vo"]
-TARGETS = ["Proofs/DualFacts.vo", "Proofs/TruncateFacts.vo", "Proofs/TruncateDegrees.vo"]
+TARGETS = ["Proofs/DualFacts.vo", "Proofs/TruncateFacts.vo", "Proofs/TruncateDegrees.vo",
+           "Proofs/TruncateFacesGeom.vo", "Proofs/TruncateFacesRot.vo", "Proofs/TruncateFaces.vo"]
 LEVEL = "proof"
 TRUST = [
     "hand-written Gallina models coq/Model/Dual.v (make_dual over Q) and coq/Model/Truncate.v (vertices_to_polygon, statement by statement, in integer units of 1/(3*scale)): "
@@ -741,6 +742,60 @@ def evaluate(ctx, cases, label):
                         res.violation(key, what, one)
                 if nontriv:
                     res.sample({"case": one, "V": len(pos), "E": len(edges), "out_V": int(out_lat.n_vertices), "out_E": int(out_lat.n_edges), "info": info})
+    if label.startswith("K("):
+        coq_crosscheck(ctx, built, outs)     # extraction cross-check: a sample of the driver's answers re-derived inside Coq
+
+
+def coq_crosscheck(ctx, built, outs, max_v=40):
+    """Extraction cross-check (DESIGN 1.3): for a small random sample of the lattices sent to the c13 driver (V <= 40) the driver's
+    answers (make_dual: positions as the exact, un-normalised fractions the extracted code leaves, edges, crossings, or
+    STUCK / DUPLICATE; vertices_to_polygon for up to three of the selections: arrays in units of 1/(3*scale), or ERR) are
+    re-derived INSIDE Coq by vm_compute on the same lattice and selection literals and must coincide."""
+    import xcheck as X
+    quick = ctx.tier == "quick"
+    rng = np.random.default_rng([ctx.seed, 13, 99])
+    small = [i for i, ((c, (pos, edges, cr), S), o) in enumerate(zip(built, outs)) if "error" not in o and 3 <= len(pos) <= max_v]
+    idx = sorted(rng.choice(small, size=min(len(small), 8 if quick else 70), replace=False).tolist()) if small else []
+    nl = X.natlist
+    lat3 = lambda P, Ed, Cr: f"({X.lst(X.zpair, P)}, {X.lst(X.natpair, Ed)}, {X.lst(X.zpair, Cr)})"
+    body = [
+        "Definition lat3 (L : lattice) := (pos L, edges L, crossing L).",
+        "Definition qpair (q : Q) : Z * Z := (Qnum q, Zpos (Qden q)).",
+        # STUCK / DUPLICATE / the dual, as the driver prints the three cases of make_dual
+        "Definition dual3 (L : lattice) := match make_dual L with DualStuck => inl 0%nat | DualDuplicate => inl 1%nat",
+        "  | DualOk D => inr (map (fun p => (qpair (fst p), qpair (snd p))) (qpos D), qedges D, qcrossing D) end.",
+    ]
+    g = lambda lhs, rhs: body.append(X.goal(lhs, rhs))
+    n_ops = {"dual": 0, "trunc": 0}
+    for n, i in enumerate(idx):
+        (c, (pos, edges, cr), S), o = built[i], outs[i]
+        L = f"L{n}"
+        body.append(f"Definition {L} : lattice := {X.lattice(pos, edges, cr, S)}.")
+        g(f"(wf_lattice {L}, no_self_loops {L})", f"({X.boolean(o['wf'][0] == '1')}, {X.boolean(o['noloops'][0] == '1')})")
+        tr = [j for j, op in enumerate(c["ops"]) if op["op"] != "dual"]
+        tr = sorted(rng.choice(tr, size=min(len(tr), 3), replace=False).tolist()) if tr else []
+        for j, op in enumerate(c["ops"]):
+            toks = o[f"o{j}"]
+            if op["op"] == "dual":
+                if toks[0] in ("STUCK", "DUPLICATE"):
+                    g(f"dual3 {L}", "inl 0%nat" if toks[0] == "STUCK" else "inl 1%nat")
+                else:
+                    cu = Cursor(toks[1:])
+                    P = cu.list(lambda: ((cu.z(), cu.z()), (cu.z(), cu.z())))      # (num, den) pairs exactly as printed
+                    Ed = cu.list(lambda: (cu.int(), cu.int()))
+                    Cr = cu.list(lambda: (cu.z(), cu.z()))
+                    g(f"dual3 {L}", f"inr ({X.lst(X.pair(X.zpair, X.zpair), P)}, {X.lst(X.natpair, Ed)}, {X.lst(X.zpair, Cr)})")
+                n_ops["dual"] += 1
+            elif j in tr:
+                sel = op["sel"]
+                vs = "None" if sel is None else f"(Some {nl([sel] if np.isscalar(sel) else list(sel))})"
+                m = parse_trunc(toks)
+                g(f"option_map lat3 (vertices_to_polygon {L} {vs})", "None" if "err" in m else f"Some {lat3([(x + 1, y) for x, y in m['pos']], m['edges'], m['cr'])}")
+                n_ops["trunc"] += 1
+    res = ctx.res
+    res.extra["extraction_crosscheck_goals_vm_compute"] = X.compile_goals("c13", "Model.Lattice Model.Dual Model.Truncate", body, "c13", stdlib="List ZArith Bool QArith")
+    res.extra["extraction_crosscheck_cases"] = dict(n_ops, lattices=len(idx))
+    res.extra["extraction_crosscheck_wall_s"] = X.LAST_WALL
 
 
 def run(ctx):
